@@ -30,7 +30,8 @@ META = dict(
 )
 MODULE = "OPM.Properties.C01"
 REQUIRED = ["OPM.C01.C01_partial_rejected_edit_changes_nothing", "OPM.C01.C01_partial_started_line_edit_rejected",
-            "OPM.C01.C01_counterexample", "OPM.C01.merge_discards_progress", "OPM.C01.C01_witness"]
+            "OPM.C01.C01_counterexample", "OPM.C01.merge_discards_progress", "OPM.C01.C01_witness",
+            "OPM.C01.C01_witness_nested_interrupt"]
 
 
 def marks_of(snap) -> list[str]:
@@ -38,7 +39,7 @@ def marks_of(snap) -> list[str]:
     return [x for x in str(v or "").split("; ") if x]
 
 
-def run_with_edits(pcode: str, edits: list[tuple[int, list]], total: int):
+def run_with_edits(pcode: str, edits: list[tuple[int, list]], total: int, horizon: int | None = None):
     """Returns dict with per-edit info and the final marks / exec counts."""
     from harness.engine_run import EngineRun
     run = EngineRun(pcode)
@@ -65,6 +66,9 @@ def run_with_edits(pcode: str, edits: list[tuple[int, list]], total: int):
                              any(type(q).__name__ in ("WatchNode", "AlarmNode") for q in n.parents)
                              for n in run.engine.interpreter._program.get_all_nodes()
                              if type(n).__name__ in ("WatchNode", "AlarmNode"))
+            # a Block/Watch/Alarm/Macro scope is active at the time of the edit (Scope Time tag's stack beyond the root)
+            scope_tag = run.engine.tags["Scope Time"]
+            in_scope = len(getattr(scope_tag, "_stack", [])) > 1
             marks_before = marks_of(snap) if snap else []
             status_before = (str(run.snapshot()["raw_tags"].get("Method Status")), str(run.snapshot()["raw_tags"].get("System State")),
                              run.engine.has_error_state())
@@ -73,7 +77,7 @@ def run_with_edits(pcode: str, edits: list[tuple[int, list]], total: int):
             after = run.engine.method_manager.get_method_state()
             status_after = (str(run.snapshot()["raw_tags"].get("Method Status")), str(run.snapshot()["raw_tags"].get("System State")),
                             run.engine.has_error_state())
-            info.append({"status_before": status_before, "status_after": status_after,"at": at, "res": res, "touches_started": touches_started, "nested_reg": nested_reg, "new": new,
+            info.append({"status_before": status_before, "status_after": status_after,"at": at, "res": res, "touches_started": touches_started, "nested_reg": nested_reg, "in_scope": in_scope, "new": new,
                          "before": {"started": list(before.started_line_ids), "executed": list(before.executed_line_ids),
                                     "failed": list(before.failed_line_ids)},
                          "after": {"started": list(after.started_line_ids), "executed": list(after.executed_line_ids),
@@ -82,10 +86,11 @@ def run_with_edits(pcode: str, edits: list[tuple[int, list]], total: int):
         # an accepted edit restarts the method (known finding): give the edited run as many ticks after its last
         # edit as the reference run gets in total, so that "a line is lost" is never a matter of the horizon
         last_edit = max([e[0] for e in edits], default=0)
-        while t < last_edit + total + 20:
+        horizon = last_edit + total + 20 if horizon is None else horizon
+        while t < horizon:
             snap = run.tick()
             t += 1
-        return {"edits": info, "marks": marks_of(snap), "method_ends": run.method_ends, "exec": Counter(e[1] for e in run.exec_log if e[0] == "init"),
+        return {"edits": info, "ticks": t, "marks": marks_of(snap), "method_ends": run.method_ends, "exec": Counter(e[1] for e in run.exec_log if e[0] == "init"),
                 "raised": run.tick_errors, "status": snap["tags"].get("Method Status"),
                 "sys": str(snap["raw_tags"].get("System State")),
                 "final_pcode": "\n".join(c for _, c in (info[-1]["new"] if info and info[-1]["res"] == "ok" else []))}
@@ -141,12 +146,13 @@ def oracle(case) -> list[Failure]:
                                      f"marks set more often than in a run of the final method from the start: {more}"))
             elif less:
                 sub = ":nested-interrupt-registered-at-edit" if any(
-                    e["nested_reg"] and e["res"] == "ok" for e in a["edits"]) else ""
+                    e["nested_reg"] and e["res"] == "ok" for e in a["edits"]) else \
+                    ":edit-inside-active-scope" if any(e["in_scope"] and e["res"] == "ok" for e in a["edits"]) else ""
                 fails.append(Failure("edit-loses-line" + sub, case,
                                      f"marks missing compared with a run of the final method from the start: {less}"))
     if not accepted_any and a["edits"] and all(e["res"] != "ok" for e in a["edits"]):
         # rejected edits must not affect the run
-        b = run_with_edits(case["pcode"], [], total)
+        b = run_with_edits(case["pcode"], [], total, horizon=a["ticks"])   # same number of ticks
         if b["marks"] != a["marks"] or b["exec"] != a["exec"]:
             fails.append(Failure("rejected-edit-affected-run", case,
                                  f"marks with rejected edit {a['marks']} vs without {b['marks']}"))
